@@ -212,6 +212,63 @@ theorem reset_no_restore_counterexample :
     directPlaceholder [.placeholder, .nested []] = true := by
   simp [runSynth, flagAfter, directPlaceholder]
 
+/-! ## bounds of type parameters: explicit and inferred instantiation are validated alike -/
+
+theorem lookupT_mapOf {pairs : List (BParam × BTy)} (hnd : (pairs.map fun e => e.1.name).Nodup)
+    {p : BParam} {t : BTy} (hm : (p, t) ∈ pairs) : lookupT p.name (mapOf pairs) = some t := by
+  induction pairs with
+  | nil => cases hm
+  | cons e rest ih =>
+    simp only [List.map_cons, List.nodup_cons] at hnd
+    rcases List.mem_cons.mp hm with he | hr
+    · subst he; simp [mapOf, lookupT]
+    · have hne : e.1.name ≠ p.name := fun h => hnd.1 (by
+        rw [h]; exact List.mem_map_of_mem (f := fun e : BParam × BTy => e.1.name) hr)
+      simp only [mapOf, List.map_cons, lookupT, hne, if_false]
+      exact ih hnd.2 hr
+
+theorem explicit_eq_inferred_aux (sat : BTy → BTy → Bool) (σ : List (Nat × BTy))
+    (suffix : List (BParam × BTy)) (i : Nat)
+    (h : ∀ e ∈ suffix, lookupT e.1.name σ = some e.2) :
+    explicitFull sat σ suffix i = inferredViolations sat σ (suffix.map (·.1)) i := by
+  induction suffix generalizing i with
+  | nil => rfl
+  | cons e rest ih =>
+    obtain ⟨p, t⟩ := e
+    have h0 := h (p, t) (by simp)
+    simp only at h0
+    simp only [explicitFull, List.map_cons, inferredViolations, h0]
+    rw [ih (i + 1) (fun e he => h e (List.mem_cons_of_mem _ he))]
+
+/-- **`validators_agree`**: for every parameter list with pairwise distinct names — any number of
+parameters, any bounds, including bounds that mention *other* parameters, earlier or later — and
+every list of type arguments, the validator of written generic types (full positional map) and the
+validator of inferred type arguments report exactly the same violated parameters. So spelling an
+inferred instantiation out (annotation / explicit type arguments) cannot change the verdict. -/
+theorem validators_agree (sat : BTy → BTy → Bool) (pairs : List (BParam × BTy))
+    (hnd : (pairs.map fun e => e.1.name).Nodup) :
+    explicitViolations .fullMap sat pairs = inferredViolations sat (mapOf pairs) (pairs.map (·.1)) 0 :=
+  explicit_eq_inferred_aux sat (mapOf pairs) pairs 0 (fun e he => lookupT_mapOf hnd (p := e.1) (t := e.2) he)
+
+/-- the same about the code as it stands (substitution mode read from typing_context.rs) -/
+theorem validators_agree_code (sat : BTy → BTy → Bool) (pairs : List (BParam × BTy))
+    (hnd : (pairs.map fun e => e.1.name).Nodup) :
+    explicitViolations Generated.boundSubst sat pairs
+      = inferredViolations sat (mapOf pairs) (pairs.map (·.1)) 0 :=
+  validators_agree sat pairs hnd
+
+/-- fault class 5 (seed C13e): growing the map inside the loop leaves a *later* parameter in the
+bound of an earlier one unsubstituted: `class Link<A: Conv<B>, B>` instantiated `Link<M, F>` with
+`M : Conv<F>` is accepted by the inferred validator and rejected by the fused explicit one. -/
+theorem prefix_map_counterexample :
+    ∃ (sat : BTy → BTy → Bool) (pairs : List (BParam × BTy)),
+      (pairs.map fun e => e.1.name).Nodup ∧
+      inferredViolations sat (mapOf pairs) (pairs.map (·.1)) 0 = [] ∧
+      explicitViolations .prefixMap sat pairs = [0] :=
+  ⟨fun t b => t == .con 10 && b == .app (.con 1) (.con 20),
+   [(⟨0, some (.app (.con 1) (.var 1))⟩, .con 10), (⟨1, none⟩, .con 20)],
+   by decide, by decide, by decide⟩
+
 /-! ## hint propagation through if / else-if / else -/
 
 /-- **`wrap_keeps_hints`**: with the else part checked against the type of the then-block, wrapping
